@@ -163,14 +163,6 @@ def parseOp (j : Json) : Except String Op := do
         ((jArrField? j "order").getD []).filterMap fun t => (jStr? t).bind fun s => (parseTaskId s).toOption
       let l ← ids
       return .release (hint ++ l.filter fun k => !hint.contains k)
-    | "force_trigger_tasks" =>
-      -- restricted class: pooled, pairwise unconnected tasks, default flow; `groups` (hint written back by the
-      -- runner) = the singleton groups in the order in which the command handled them
-      let hint : List (Int × String) :=
-        ((jArrField? j "groups").getD []).flatMap fun grp =>
-          ((jArr? grp).getD []).filterMap fun t => (jStr? t).bind fun s => (parseTaskId s).toOption
-      let l ← ids
-      return .trigger (hint ++ l.filter fun k => !hint.contains k)
     | "set_hold_point" => return .setHoldPoint (← req ((jStrField? args "point").bind String.toInt?) "point")
     | "release_hold_point" => return .releaseHoldPoint
     | "pause" => return .pause
@@ -237,8 +229,6 @@ def obsJson (g : Graph) (s : State) : Json :=
         jOfList (fun (k : Int × String) => Json.arr #[jOfInt k.1, Json.str k.2]) q.deque]) s.qs),
     ("wjp", jOfList (fun (x : Proxy) => Json.arr #[jOfInt x.pt, Json.str x.name])
         (sortBy proxyLt (s.pool.filter (·.wjp)))),
-    ("man", jOfList (fun (x : Proxy) => Json.arr #[jOfInt x.pt, Json.str x.name])
-        (sortBy proxyLt (s.pool.filter (·.manual)))),
     ("hold", Json.mkObj [
       ("tasks", jOfList (fun (k : String × Int) => Json.arr #[jOfInt k.2, Json.str k.1])
         (sortBy (fun a b => a.2 < b.2 || (a.2 == b.2 && a.1 < b.1)) s.tasksToHold)),
